@@ -917,7 +917,7 @@ def run(tier: str, seed: int, replay: str | None = None) -> int:
              "(main file + include files, random layouts) and, bounded-exhaustive, every line of <= 3 (thorough: 4) statements over "
              "INC_SWEEP_ITEMS x `;`/new line x INC_SWEEP_TAILS; a third of the program cases have a run of statements moved to an include file; "
              "step cases drive the real reader object call by call (next / pass_back / sourceform.read_docstring): bounded-exhaustive, every line "
-             "of 2..3 (thorough: 4) statements over c02step.STEP_ITEMS x `;`/new line x STEP_TAILS x every schedule of one atom "
+             "of 2..3 statements over 3 (thorough: 5) of c02step.STEP_ITEMS (thorough also: 4 statements over 3) x `;`/new line x STEP_TAILS x every schedule of one atom "
              "(take / read_docstring+take / take, hand back, take) per statement, and random layouts / include cases x random schedules",
         samples=samples,
         traces_validated_against_impl=len(cases) + len(jcases) + ev_micro + 2 * len(decl_log) + step_stats["cases"],
